@@ -869,12 +869,129 @@ fn c09_blackbox(ctx: &Ctx) -> Stats {
     })
 }
 
+
+// ------------------------------------------------------- C09: the rule inside real deep searches
+
+/// The position an engine board holds, as a reference position (counters irrelevant here).
+fn pos_of_board(b: &Board) -> Option<Pos> {
+    let r = eng::read_board(b).ok()?;
+    Some(Pos { sq: r.sq, stm: r.stm, castle: r.castle, ep: r.ep, half: 0, full: 1 })
+}
+
+/// One case: fresh engine, the position command, then ONE search of `depth` iterations (bounded by a
+/// node deadline) with the main-search node log on. Every node below the root is judged: a position
+/// that already occurred twice in the game (root included) must have been answered as a repetition
+/// draw, whatever the table holds; a position seen fewer than twice must not have been.
+fn c09_insearch_case(g: &Game, depth: u8, node_limit: u64, st: &mut Stats, case: &dyn Fn() -> J) {
+    let cmd = g.command(None);
+    let mut engine = Flounder::new();
+    {
+        let e = &mut engine;
+        if engine_call(|| e.verif_handle_command(&cmd)).is_err() {
+            return; // C04's finding
+        }
+    }
+    let board = *engine.verif_board();
+    let r = {
+        let s = engine.verif_searcher();
+        s.verif.nlog = Some(vec![]);
+        s.verif_timer().node_limit = Some(node_limit);
+        s.verif_timer().hard_cap = Some(node_limit * 4 + 1_000_000);
+        engine_call(|| {
+            s.find_best_move(&board, depth, None);
+        })
+    };
+    if let Err(msg) = r {
+        st.violation(format!("C09:insearch-panic:{}", cmd), format!("search after '{}' panicked: {}", shorten(&cmd), msg), case());
+        return;
+    }
+    let log = engine.verif_searcher().verif.nlog.take().unwrap_or_default();
+    let mut strict: HashMap<crate::oracle::PosKey, u32> = HashMap::new();
+    let mut fide: HashMap<crate::oracle::PosKey, u32> = HashMap::new();
+    for p in g.positions.iter() {
+        *strict.entry(p.key()).or_insert(0) += 1;
+        *fide.entry(p.key_fide()).or_insert(0) += 1;
+    }
+    st.bump("insearch_searches");
+    for (b, ply, d, how) in log.iter() {
+        if *ply == 0 {
+            continue;
+        }
+        let Some(p) = pos_of_board(b) else { continue };
+        let ns = strict.get(&p.key()).copied().unwrap_or(0);
+        let nf = fide.get(&p.key_fide()).copied().unwrap_or(0);
+        st.bump("insearch_nodes_judged");
+        if *how == 0 {
+            st.bump("insearch_nodes_answered_as_repetition_draw");
+            if *ply >= 2 {
+                st.bump("insearch_repetition_draws_two_or_more_plies_below_the_root");
+            }
+            if *ply >= 4 && p.key() == g.current().key() {
+                st.bump("insearch_repetition_draws_on_return_to_the_root_position");
+            }
+        }
+        if ns >= 2 && *how != 0 {
+            st.violation(
+                format!("C09:insearch-missed:{}:{}", cmd, p.to_fen()),
+                format!(
+                    "after '{}', inside the depth-{} search the position {} at ply {} (remaining depth {}) — which has already occurred {} times in the game — was {} instead of being scored as a draw",
+                    shorten(&cmd),
+                    depth,
+                    p.to_fen(),
+                    ply,
+                    d,
+                    ns,
+                    if *how == 1 { "answered from the transposition table" } else { "searched" }
+                ),
+                case(),
+            );
+            return;
+        }
+        if nf < 2 && *how == 0 {
+            st.violation(
+                format!("C09:insearch-spurious:{}:{}", cmd, p.to_fen()),
+                format!("after '{}', inside the depth-{} search the position {} at ply {} was scored as a repetition draw although it occurred only {} time(s) in the game", shorten(&cmd), depth, p.to_fen(), ply, nf),
+                case(),
+            );
+            return;
+        }
+        if ns == 1 && *how != 0 {
+            st.bump("insearch_nodes_seen_once_before_and_rightly_not_drawn");
+        }
+    }
+}
+
+fn c09_insearch(ctx: &Ctx) -> Stats {
+    let n = ctx.budget(400, 12_000);
+    let limit: u64 = if ctx.quick() { 30_000 } else { 150_000 };
+    parallel(ctx.workers, |w| {
+        let mut st = Stats::new();
+        let mut rng = Rng::new(ctx.seed, 9300 + w as u64);
+        for i in 0..(n / ctx.workers as u64 + 1) {
+            if i >= 6 && ctx.past(0.8) {
+                break;
+            }
+            let g = if i % 8 == 7 { far_repeat_game(&mut rng).unwrap_or_else(|| repeat_game(&mut rng)) } else { repeat_game(&mut rng) };
+            if g.current().legal_moves().is_empty() {
+                continue;
+            }
+            let depth = 4 + rng.below(4) as u8;
+            let cmd = g.command(None);
+            st.case(hash64(&(cmd.clone(), depth, 0x15u8)), true);
+            let case = || J::obj(vec![("kind", J::s("insearch")), ("command", J::s(cmd.clone())), ("depth", J::i(depth as i64)), ("node_limit", J::i(limit as i64))]);
+            st.sample_tagged("insearch", || case());
+            c09_insearch_case(&g, depth, limit, &mut st, &case);
+        }
+        st
+    })
+}
+
 pub fn run_c09(ctx: &Ctx) -> i32 {
     let spec = Spec {
         level: "exploration",
-        rule: "a case is a game history given with a position command (startpos or FEN start, 2..40 moves that shuffle pieces out and back so that candidate successor positions have occurred 0, 1, 2 or more times, sometimes the initial position), optionally preceded on the same engine by another position command (an extension, a prefix, an unrelated game). For every successor S of the current position the engine's repetition answer (hook) must be 'draw' when S already occurred twice (identical placement, side, rights, ep target) and 'not a draw' when it occurred fewer than twice even under the FIDE reading of 'same position'; in between either answer is accepted. End-to-end on the real binary: after 'ucinewgame', the position command and 'go depth 1', the printed depth-1 score must equal max over moves of (0 for a third occurrence, else minus the engine's own quiescence value). Distinct by command text; non-trivial when some successor is a third occurrence",
+        rule: "a case is a game history given with a position command (startpos or FEN start, 2..40 moves that shuffle pieces out and back so that candidate successor positions have occurred 0, 1, 2 or more times, sometimes the initial position), optionally preceded on the same engine by another position command (an extension, a prefix, an unrelated game). For every successor S of the current position the engine's repetition answer (hook) must be 'draw' when S already occurred twice (identical placement, side, rights, ep target) and 'not a draw' when it occurred fewer than twice even under the FIDE reading of 'same position'; in between either answer is accepted. Inside real searches (hook: log of how every main-search node was answered): on a fresh engine, after the position command, one search of 4..7 iterations bounded by a node deadline; every node below the root whose position already occurred twice in the game (root included) must have been answered as a repetition draw — not from the table, not searched — and no node seen fewer than twice may be. End-to-end on the real binary: after 'ucinewgame', the position command and 'go depth 1', the printed depth-1 score must equal max over moves of (0 for a third occurrence, else minus the engine's own quiescence value). Distinct by command text; non-trivial when some successor is a third occurrence",
         assumptions: vec!["the reference rules implementation is correct (perft self-test at every run)".into(), "the end-to-end expectation uses the engine's own quiescence search (hook build of the same sources) for the values of non-repeating moves".into()],
-        required: if ctx.replay.is_some() { vec![] } else { vec!["successor_seen_0_times", "successor_seen_1_time", "successor_seen_2_times", "successor_seen_3_or_more_times", "third_occurrence_of_the_initial_position", "earlier_command_extends_the_game", "earlier_command_is_a_prefix", "earlier_command_unrelated_game", "blackbox_games_where_the_rule_changes_the_score", "histories_with_third_occurrence_more_than_100_plies_after_the_second", "placement_recurs_with_other_rights_or_ep"] },
+        required: if ctx.replay.is_some() { vec![] } else { vec!["successor_seen_0_times", "successor_seen_1_time", "successor_seen_2_times", "successor_seen_3_or_more_times", "third_occurrence_of_the_initial_position", "earlier_command_extends_the_game", "earlier_command_is_a_prefix", "earlier_command_unrelated_game", "blackbox_games_where_the_rule_changes_the_score", "histories_with_third_occurrence_more_than_100_plies_after_the_second", "placement_recurs_with_other_rights_or_ep", "insearch_nodes_answered_as_repetition_draw", "insearch_repetition_draws_two_or_more_plies_below_the_root", "insearch_repetition_draws_on_return_to_the_root_position", "insearch_nodes_seen_once_before_and_rightly_not_drawn"] },
         exhaustive: false,
         extra: vec![],
     };
@@ -886,6 +1003,7 @@ pub fn run_c09(ctx: &Ctx) -> i32 {
         return finalize(ctx, spec, st);
     }
     let mut total = c09_inprocess(ctx);
+    total.merge(c09_insearch(ctx));
     total.merge(c09_blackbox(ctx));
     finalize(ctx, spec, total)
 }
@@ -947,6 +1065,18 @@ fn replay_c09(ctx: &Ctx, c: &J, st: &mut Stats) {
             if class(x.clamp(i32::MIN as i64, i32::MAX as i64) as i32) != want {
                 st.violation("C09:replay:score", format!("depth-1 score {} but expected {}", x, want.show()), c.clone());
             }
+        }
+        return;
+    }
+    if c.str_of("kind") == "insearch" {
+        let cmd = c.str_of("command");
+        match game_of_command(&cmd) {
+            Some(g) => {
+                st.case(hash64(&cmd), true);
+                let cc = c.clone();
+                c09_insearch_case(&g, c.int_of("depth") as u8, c.int_of("node_limit") as u64, st, &|| cc.clone());
+            }
+            None => st.inconclusive.push("replay: the command is not a well-formed legal game".into()),
         }
         return;
     }
